@@ -313,14 +313,14 @@ def add_list_api(plan, tier, seed):
             for tok in tokens:
                 if len(tok) == 2 and tok[0].isupper():
                     x, e = tok[0], tok[1]
-                    final = e in "fg"
+                    final = e in "fgkl"
                     out.append(mk_bound(w, mk_transform(w, self.fn(x))))
                     out.append(mk_bound(w, mk_transform(w, self.fn(e), final=final, expand=self.fn(x))))
                 elif tok.endswith("~"):
                     out.append(mk_bound(w, mk_transform(w, self.fn(tok[0])), args=self.args(tok)))
                 else:
                     base = tok[0]
-                    out.append(mk_bound(w, mk_transform(w, self.fn(base), final=base in "fg")))
+                    out.append(mk_bound(w, mk_transform(w, self.fn(base), final=base in "fgkl")))
             return out
 
     def pipe_t(tokens, marker_names, tag="self"):
@@ -333,7 +333,8 @@ def add_list_api(plan, tier, seed):
                 ctx.assume(z3.And(lv >= 0, lv <= len(els)))
                 mk_[m] = lv
             return mk_pipeline(w, els, mk_)
-        return T("build", mk, gen=lambda rng: {"tokens": tokens, "markers": {m: rng.randint(0, n_elems(tokens)) for m in marker_names}})
+        return T("build", mk, gen=lambda rng: {"_markers": {m: rng.randint(0, n_elems(tokens)) for m in marker_names}},
+                 tokens=list(tokens), marker_names=tuple(marker_names))
 
     def n_elems(tokens):
         return sum(2 if (len(t) == 2 and t[0].isupper()) else 1 for t in tokens)
@@ -347,7 +348,7 @@ def add_list_api(plan, tier, seed):
             b = ctx.ghost.setdefault("build", Build(ctx))
             el = b.elements([tok])[-1]
             return el.f["_transform"] if raw else el
-        return T("build", mk, gen=lambda rng: {"token": token})
+        return T("build", mk, gen=lambda rng: {"token": token}, token=token)
 
     # ---- views -------------------------------------------------------------------------------------------------------------------
     def sym(x):
@@ -466,12 +467,92 @@ def add_list_api(plan, tier, seed):
     contracts = []
 
     def add(qual, case):
+        case.native_raw = True
+        case.native_call = make_native(qual, case)
+        post = case.ensures
+        case.ensures = (lambda o, r, n_, post=post: r["ok"] if isinstance(r, dict) and r.get("native") else post(o, r, n_))
         contracts.append(FnContract(w, qual, [case]))
 
-    def native(op):
-        """replay: build the REAL pipeline / operands from the model, run the operation, evaluate the same postcondition"""
+    def make_native(qual, case):
+        """replay on REAL objects: build the pipeline / operands of this case from the counter-model, snapshot the pre-state, run the
+        real method and evaluate the SAME postcondition / allowed-exception clauses on the real objects"""
+        meth = qual.split(".")[1]
+        post, raises, must_return = case.ensures, dict(case.raises), case.must_return
+        exc_post = getattr(case, "exc_ensures", None)
+        requires = case.requires
+
         def call(mod, a):
-            return native_list_op(op, a)
+            from pennylane.core.transforms.transform import BoundTransform, Transform
+            CPcls = mod.CompilePipeline
+            fns = {}
+
+            def fn(name):
+                if name not in fns:
+                    def f(tape, *args, **kwargs):
+                        return (tape,), (lambda res: res[0])
+                    f.__name__ = f.__qualname__ = name
+                    fns[name] = f
+                return fns[name]
+
+            def elements(tokens):
+                out = []
+                for tok in tokens:
+                    if len(tok) == 2 and tok[0].isupper():
+                        x, e = tok[0], tok[1]
+                        out.append(BoundTransform(Transform(fn(x))))
+                        out.append(BoundTransform(Transform(fn(e), expand_transform=fn(x), final_transform=e in "fgkl")))
+                    elif tok.endswith("~"):
+                        out.append(BoundTransform(Transform(fn(tok[0])), args=("other-arguments",)))
+                    else:
+                        out.append(BoundTransform(Transform(fn(tok[0]), final_transform=tok[0] in "fgkl")))
+                return out
+
+            def snap(v):
+                if isinstance(v, CPcls):
+                    q = CPcls(list(v._compile_pipeline))                     # pylint: disable=protected-access
+                    q._markers, q.cotransform_cache = dict(v._markers), v.cotransform_cache
+                    return q
+                return v
+            real = {}
+            for pname, t in case.params.items():
+                if t.kind == "build" and "tokens" in t.kw:
+                    pp = CPcls(elements(t.kw["tokens"]))
+                    lv = (a.get(pname) or {}).get("_markers", {}) if isinstance(a.get(pname), dict) else {}
+                    n_el = len(pp._compile_pipeline)
+                    pp._markers = {m: min(max(int(lv.get(m, 0)), 0), n_el) if isinstance(lv.get(m, 0), int) else 0 for m in t.kw["marker_names"]}
+                    real[pname] = pp
+                elif t.kind == "build" and "token" in t.kw:
+                    tok = t.kw["token"]
+                    el = elements([tok[2:] if tok.startswith("T:") else tok])[-1]
+                    real[pname] = el._transform if tok.startswith("T:") else el          # pylint: disable=protected-access
+                elif t.kind == "const":
+                    real[pname] = t.args[0]
+                elif t.kind == "none":
+                    real[pname] = None
+                else:
+                    real[pname] = a.get(pname)
+
+            class NSx:
+                def __init__(self, d):
+                    self.__dict__.update(d)
+            pre = NSx({k: snap(v) for k, v in real.items()})
+            if requires is not None and not S.truth(requires(NSx(real))):
+                return {"native": True, "ok": True, "observed": "input outside the precondition"}
+            try:
+                r = getattr(real["self"], meth)(*[real[p_] for p_ in case.params if p_ != "self"])
+            except Exception as ex:  # pylint: disable=broad-except
+                name = type(ex).__name__
+                ok = name in raises and S.truth(raises[name](pre))
+                if ok and must_return is not None and S.truth(must_return(pre)):
+                    ok = False
+                if ok and exc_post is not None:
+                    ok = S.truth(exc_post(name, pre, NSx(real)))
+                return {"native": True, "ok": bool(ok), "observed": f"raised {name}: {ex}", "markers_after": dict(real["self"]._markers),
+                        "pipeline_after": [getattr(t_.tape_transform, "__name__", "?") for t_ in real["self"]._compile_pipeline]}
+            ok = S.truth(post(pre, r, NSx(real)))
+            return {"native": True, "ok": bool(ok), "observed": repr(r)[:200], "markers_before": dict(pre.self._markers),
+                    "markers_after": dict(real["self"]._markers), "result_markers": dict(r._markers) if isinstance(r, CPcls) else None,
+                    "pipeline_after": [getattr(t_.tape_transform, "__name__", "?") for t_ in real["self"]._compile_pipeline]}
         return call
 
     EXC = ("TransformError", "ValueError", "TypeError", "IndexError")
@@ -524,7 +605,212 @@ def add_list_api(plan, tier, seed):
                 clash = (lambda o, ft=final_tok: ft and has_final(view(o.self)))
                 add("CompilePipeline.append", Case(f"{tag}/{tok}", dict(base, transform=elem_t(tok.replace("k", "f").replace("l", "g") if False else tok)),
                     ensures=app_post, raises={"TransformError": lambda o, c=clash: c(o)}, must_return=lambda o, c=clash: not c(o), size_bounded=True))
-        # (the remaining operations are generated below, outside the marker loop, to keep the instance count in check)
+
+            if len(mk_names) == 2:
+                continue
+            L = n
+            old_marks_shift = None
+
+            def norm_pos(idx, L_):
+                """where list.insert(idx, x) puts x in a list of length L_"""
+                if isinstance(idx, z3.ExprRef):
+                    return z3.If(idx < 0, z3.If(idx + L_ < 0, z3.IntVal(0), idx + L_), z3.If(idx > L_, z3.IntVal(L_), idx))
+                return max(idx + L_, 0) if idx < 0 else min(idx, L_)
+
+            # ---- insert --------------------------------------------------------------------------------------------------------
+            for tok in ("d", "Zh", "T:d", "k"):
+                final_tok = tok[-1] in "kl"
+
+                def ins_post(o, r, n_):
+                    old = view(o.self)
+                    new, _, _ = as_added(o.transform)
+                    sh = len(new)
+                    pos = norm_pos(o.index, len(old))
+                    conj = []
+                    for q in range(len(old) + 1):
+                        want = [("same", e) for e in old[:q]] + new + [("same", e) for e in old[q:]]
+                        conj.append(Implies(eq(pos, q), match_list(view(n_.self), want)))
+                    got = marks(n_.self)
+                    if set(got) != set(marks(o.self)):
+                        return False
+                    for k_, v in marks(o.self).items():
+                        # the marker keeps its neighbours: above the insertion point it moves by the number of inserted elements,
+                        # AT the insertion point it may end up on either side of the inserted block (never inside it)
+                        conj += [Implies(v > pos, eq(got[k_], v + sh)), Implies(v < pos, eq(got[k_], v)),
+                                 Implies(eq(v, pos), Or(eq(got[k_], v), eq(got[k_], v + sh)))]
+                    conj.append(marks_valid(n_.self))
+                    return And(True, *conj)
+                term_clash = (lambda o, ft=final_tok: ft and len(view(o.self)) > 0)
+                add("CompilePipeline.insert", Case(f"{tag}/{tok}", dict(base, index=Int, transform=elem_t(tok)), ensures=ins_post,
+                    raises={"TransformError": lambda o, c=term_clash: c(o)}, must_return=lambda o, c=term_clash: not c(o),
+                    exc_ensures=lambda name, o, n_: unchanged(o.self, n_.self), size_bounded=True))
+
+            # ---- pop ---------------------------------------------------------------------------------------------------------------
+            def paired(old, i):
+                """element i carries an expand transform and element i-1 is that expand transform"""
+                if i <= 0 or expand_fn(old[i]) is None:
+                    return False
+                prev = old[i - 1]
+                if tfn(prev) is not expand_fn(old[i]) or len(targs(prev)) != len(targs(old[i])) or bool(is_final(prev)):
+                    return False
+                return And(True, *[eq(x, y) for x, y in zip(targs(prev), targs(old[i]))])
+
+            def after_removal(o_self, n_self, removed):
+                old = view(o_self)
+                want = [("same", e) for j, e in enumerate(old) if j not in removed]
+                mk_want = {k_: shift_after_removal(v, sorted(removed)) for k_, v in marks(o_self).items()}
+                return And(match_list(view(n_self), want), marks_eq(marks(n_self), mk_want), marks_valid(n_self))
+
+            def pop_post(o, r, n_):
+                old = view(o.self)
+                conj = []
+                for i, e in enumerate(old):
+                    hit = Or(eq(o.index, i), eq(o.index, i - len(old)))
+                    pr = paired(old, i)
+                    removed = {i - 1, i} if pr is not False and S.truth(pr) else {i}
+                    conj.append(Implies(hit, And(same(r, e), after_removal(o.self, n_.self, removed))))
+                return And(True, *conj)
+            if L > 0:
+                add("CompilePipeline.pop", Case(tag, dict(base, index=Int), ensures=pop_post,
+                    raises={"IndexError": lambda o: Or(o.index >= len(view(o.self)), o.index < -len(view(o.self)))},
+                    must_return=lambda o: And(o.index < len(view(o.self)), o.index >= -len(view(o.self))),
+                    exc_ensures=lambda name, o, n_: unchanged(o.self, n_.self), size_bounded=True))
+
+            # ---- remove --------------------------------------------------------------------------------------------------------------
+            for tok in ("a", "T:a", "e", "z"):
+                if tok[-1] not in "".join(tokens) and tok != "z":
+                    continue
+
+                def rm_post(o, r, n_, tok=tok):
+                    old = view(o.self)
+                    obj = o.obj
+                    removed = set()
+                    for i, e in enumerate(old):
+                        if (sym(obj) and obj.cls is TRF) or (not sym(obj) and type(obj).__name__ == "Transform"):
+                            hit = (tfn(e) is (obj.f["tape_transform"] if sym(obj) else obj.tape_transform)) and \
+                                  ((e.f["_transform"] is obj or same(e.f["_transform"], obj)) if sym(e) else e._transform is obj)   # pylint: disable=protected-access
+                        else:
+                            hit = bt_equal(e, obj)
+                            hit = hit if isinstance(hit, bool) else S.truth(hit)
+                        if hit:
+                            removed.add(i)
+                            pr = paired(old, i)
+                            if pr is not False and S.truth(pr):
+                                removed.add(i - 1)
+                    return after_removal(o.self, n_.self, removed)
+                add("CompilePipeline.remove", Case(f"{tag}/{tok}", dict(base, obj=elem_t(tok if tok.startswith("T:") else tok)), ensures=rm_post, size_bounded=True))
+
+            # ---- + / += / radd / extend -------------------------------------------------------------------------------------------------
+            OTHERS = [("bt:d", elem_t("d")), ("bt:Zh", elem_t("Zh")), ("T:d", elem_t("T:d")), ("bt:k", elem_t("k")),
+                      ("pipe[]", pipe_t([], (), "other")), ("pipe[d]+x", pipe_t(["d"], ("x",), "other")), ("pipe[d,k]+x", pipe_t(["d", "k"], ("x",), "other"))]
+            for olabel, ot in OTHERS:
+                def add_want(o):
+                    new, omarks, ofinal = as_added(o.other)
+                    off = len(view(o.self))
+                    want = [("same", e) for e in view(o.self)] + new
+                    mk_want = dict(marks(o.self))
+                    for k_, v in omarks.items():
+                        mk_want[k_] = v + off
+                    return want, mk_want, ofinal
+                both_final = (lambda o: has_final(view(o.self)) and as_added(o.other)[2])
+
+                def other_unchanged(o, n_):
+                    if (sym(o.other) and o.other.cls is PIPE) or (not sym(o.other) and type(o.other).__name__ == "CompilePipeline"):
+                        return unchanged(o.other, n_.other)
+                    return True
+
+                def plus_post(o, r, n_):
+                    want, mk_want, _ = add_want(o)
+                    return And(match_list(view(r), want), marks_eq(marks(r), mk_want), marks_valid(r), unchanged(o.self, n_.self),
+                               other_unchanged(o, n_), fresh_containers(r, n_.self))
+                add("CompilePipeline.__add__", Case(f"{tag}/{olabel}", dict(base, other=ot), ensures=plus_post,
+                    raises={"TransformError": lambda o, c=both_final: c(o)}, must_return=lambda o, c=both_final: not c(o), size_bounded=True))
+
+                def iadd_post(o, r, n_):
+                    want, mk_want, _ = add_want(o)
+                    return And(same(r, n_.self), match_list(view(n_.self), want), marks_eq(marks(n_.self), mk_want), marks_valid(n_.self),
+                               other_unchanged(o, n_))
+                add("CompilePipeline.__iadd__", Case(f"{tag}/{olabel}", dict(base, other=ot), ensures=iadd_post,
+                    raises={"TransformError": lambda o, c=both_final: c(o)}, must_return=lambda o, c=both_final: not c(o),
+                    exc_ensures=lambda name, o, n_: unchanged(o.self, n_.self), size_bounded=True))
+                if olabel.startswith("pipe"):
+                    add("CompilePipeline.extend", Case(f"{tag}/{olabel}", dict(base, transforms=ot),
+                        ensures=lambda o, r, n_: iadd_post(S_rename(o, "transforms"), n_.self, S_rename(n_, "transforms")),
+                        raises={"TransformError": lambda o, c=both_final: c(S_rename(o, "transforms"))},
+                        must_return=lambda o, c=both_final: not c(S_rename(o, "transforms")), size_bounded=True))
+                if olabel.startswith(("bt:", "T:")):
+                    def radd_post(o, r, n_):
+                        new, _, _ = as_added(o.other)
+                        want = new + [("same", e) for e in view(o.self)]
+                        mk_want = {k_: v + len(new) for k_, v in marks(o.self).items()}      # the markers move with their neighbours
+                        return And(match_list(view(r), want), marks_eq(marks(r), mk_want), marks_valid(r), unchanged(o.self, n_.self),
+                                   fresh_containers(r, n_.self))
+                    add("CompilePipeline.__radd__", Case(f"{tag}/{olabel}", dict(base, other=ot), ensures=radd_post,
+                        raises={"TransformError": lambda o, c=both_final: c(o)}, must_return=lambda o, c=both_final: not c(o), size_bounded=True))
+
+            # ---- * ---------------------------------------------------------------------------------------------------------------------
+            for k_rep in (0, 1, 2, 3):
+                def mul_post(o, r, n_, k_rep=k_rep):
+                    want = [("same", e) for _ in range(k_rep) for e in view(o.self)]
+                    # markers: on a non-empty result they are the markers of the first copy; never a level beyond the end
+                    return And(match_list(view(r), want), marks_valid(r), unchanged(o.self, n_.self), fresh_containers(r, n_.self),
+                               marks_eq(marks(r), marks(o.self)) if k_rep >= 1 else True)
+                add("CompilePipeline.__mul__", Case(f"{tag}/times{k_rep}", dict(base, n=T("const", k_rep)), ensures=mul_post,
+                    raises={"TransformError": lambda o: has_final(view(o.self))}, must_return=lambda o: not has_final(view(o.self)), size_bounded=True))
+            add("CompilePipeline.__mul__", Case(f"{tag}/negative", dict(base, n=Int), requires=lambda a: a.n < 0, ensures=lambda o, r, n_: False,
+                raises={"ValueError": lambda o: True}, size_bounded=True))
+
+            # ---- slices --------------------------------------------------------------------------------------------------------------------
+            if L >= 2 and len(mk_names) <= 1:
+                bounds = [None, 0, 1, L - 1, L, -1]
+                for st_, sp_, stp_ in [(a_, b_, c_) for a_ in bounds for b_ in bounds for c_ in (None, 2, -1)
+                                      if (c_ is None or (a_ is None and b_ is None) or (a_, b_) in ((0, None), (None, L), (1, None)))]:
+                    sl = slice(st_, sp_, stp_)
+
+                    def sl_post(o, r, n_, sl=sl):
+                        old = view(o.self)
+                        start, stop, step = sl.indices(len(old))
+                        want = [("same", e) for e in old[sl]]
+                        conj = [match_list(view(r), want), unchanged(o.self, n_.self), marks_valid(r)]
+                        got = marks(r)
+                        if step != 1:
+                            conj.append(len(got) == 0)         # documented: markers are dropped for a step other than 1
+                        else:
+                            for k_, v in marks(o.self).items():
+                                inside = And(v >= start, v < stop)
+                                conj.append(Implies(inside, (k_ in got) and eq(got.get(k_, 0), v - start)))
+                                # a marker outside [start, stop] is dropped; exactly at `stop` it may sit at the end of the slice or be dropped
+                                conj.append(Implies(Or(v < start, v > stop), k_ not in got))
+                                if k_ in got:
+                                    conj.append(Implies(eq(v, stop), eq(got[k_], stop - start)) if stop >= start else (k_ not in got))
+                        return And(True, *conj)
+                    add("CompilePipeline.__getitem__", Case(f"{tag}/slice[{st_}:{sp_}:{stp_}]", dict(base, idx=T("const", sl)), ensures=sl_post, size_bounded=True))
+
+            # ---- == / in -----------------------------------------------------------------------------------------------------------------
+            add("CompilePipeline.__eq__", Case(f"{tag}/same-content", dict(base, other=pipe_t(tokens, mk_names, "other")),
+                ensures=lambda o, r, n_: eq(r, And(len(view(o.self)) == len(view(o.other)), *[bt_equal(x, y) for x, y in zip(view(o.self), view(o.other))],
+                                                   marks_eq(marks(o.self), marks(o.other)))), size_bounded=True))
+            if L >= 1:
+                add("CompilePipeline.__eq__", Case(f"{tag}/shorter", dict(base, other=pipe_t(tokens[:-1], (), "other")), ensures=lambda o, r, n_: eq(r, False), size_bounded=True))
+                for tok in ("a", "T:a", "z", "T:z"):
+                    def in_post(o, r, n_):
+                        obj = o.obj
+                        if (sym(obj) and obj.cls is TRF) or (not sym(obj) and type(obj).__name__ == "Transform"):
+                            want = any(tfn(e) is (obj.f["tape_transform"] if sym(obj) else obj.tape_transform) for e in view(o.self))
+                        else:
+                            want = Or(False, *[bt_equal(e, obj) for e in view(o.self)])
+                        return eq(r, want) if isinstance(want, bool) else (r == want)
+                    add("CompilePipeline.__contains__", Case(f"{tag}/{tok}", dict(base, obj=elem_t(tok)), ensures=in_post, size_bounded=True))
+
+    class _NSR:
+        pass
+
+    def S_rename(ns, frm):
+        """view of a parameter namespace with parameter `frm` also available as `.other`"""
+        out = _NSR()
+        out.__dict__.update(ns.__dict__)
+        out.other = getattr(ns, frm)
+        return out
 
     def fresh_containers(r, orig):
         if sym(r):
@@ -540,5 +826,3 @@ def add_list_api(plan, tier, seed):
         plan.fn_under_contract(TR, q)
 
 
-def native_list_op(op, a):
-    raise NotImplementedError
